@@ -50,7 +50,11 @@ def firstMatch : List Repl → List Line → Option Repl
   | r :: rs, ls => if matchRun r.pats ls then some r else firstMatch rs ls
 
 /-- debug.py:421-444, the outer `while i < len(tb_list)` loop.  `skip` lines are still covered by the run that was
-    just replaced (`i = i + j`); otherwise either a marker is emitted and the run skipped, or the line is copied. -/
+    just replaced (`i = i + j`); otherwise either a marker is emitted and the run skipped, or the line is copied.
+    ONLY FOR TABLES WITH `tablesOK`: an entry with an empty pattern list matches everywhere with `j = 0`, Python then
+    executes `i = i + 0` and emits markers for ever, while this total function moves on by one line
+    (`r.pats.length - 1 = 0`).  Outside `tablesOK` the model does not mirror the code; `filterClause` refuses such
+    tables ("empty-pattern-list") before looking at any output, and the harness does not call the real function. -/
 def go (tbl : List Repl) : Nat → List Line → List Out
   | _, [] => []
   | k + 1, _ :: ls => go tbl k ls
@@ -358,11 +362,6 @@ def runTop (rule : FrameRule) (bottom : Bottom) (levels : List Level) : List Eve
   let r := run rule bottom 0 [] levels
   r.events ++ [resultEvent r.out] ++ orphanEvents r.lines 0 levels
 
-/-- `AsyncTask.traceback()` along a creator chain of depth `d` (the creator of task `n+1` is task `n`) -/
-def tracebackOf (line : Nat → Frame) : Nat → List Frame
-  | 0 => [line 0]                                         -- `if self.creator is None: return [self_str]`
-  | n + 1 => tracebackOf line n ++ [line (n + 1)]         -- `result = self.creator.traceback(); result.append(self_str)`
-
 /-! ### reference semantics: which exception reaches the awaiter and the frames it must show -/
 
 /-- sequential reading of the chain from level `lv` down: (exception token, user frames from level `lv` to the raiser) -/
@@ -383,9 +382,53 @@ def ref (bottom : Bottom) : Nat → List Level → Option (Nat × List Frame)
     | [], .hook _ h => some (hookTok, hookFrames lv h)     -- the traceback ends at the hook's (helper's) frame
     | _, _ => refStep lv L (ref bottom (lv + 1) rest)
 
-/-- levels whose failure would put a foreign frame into `_frame` (see `C18_stack_orphan_counterexample`) -/
-def syncSafe (levels : List Level) : Bool :=
-  levels.all fun L => L.await == .yld || (match L.handler with | .raiseNew _ | .swallow => true | _ => false)
+def Handler.passes : Handler → Bool
+  | .pass | .bare | .named => true
+  | _ => false
+
+/-- the `format_asynq_stack()` calls the generated bodies make, in the sequential reading: every level asks once when it
+    starts (all its creators are suspended in their await) and once more in its `except` clause if there is one and
+    the level below delivered an exception; each answer is the levels `0 .. lv`, outermost first -/
+def refEvents (bottom : Bottom) : Nat → List Level → List Event
+  | _, [] => []
+  | lv, L :: rest =>
+    match rest, bottom with
+    | [], .hook _ _ => [.stack .start lv (List.range (lv + 1))]
+    | _, _ =>
+      .stack .start lv (List.range (lv + 1)) :: refEvents bottom (lv + 1) rest ++
+        (if (ref bottom (lv + 1) rest).isSome && L.handler != .pass then [.stack .handler lv (List.range (lv + 1))] else [])
+
+/-- what the caller must see: nothing, or the reference exception with the caller's frame followed by the reference
+    frames - in the raw traceback, in `extract_tb` of it, and (without the caller) in what `format_error` prints -/
+def refResult (r : Option (Nat × List Frame)) : Event :=
+  match r with
+  | none => .result none
+  | some (tok, fs) => .result (some (tok, .caller :: fs, .caller :: fs, fs))
+
+/-- a task created by level `i` and run by the caller after the chain has finished lists `0 .. i` and itself -/
+def refOrphans : Nat → List Level → List Event
+  | _, [] => []
+  | i, L :: rest =>
+    if L.orphan then .stack .orphan i (List.range (i + 1) ++ [1000 + i]) :: refOrphans (i + 1) rest
+    else refOrphans (i + 1) rest
+
+/-- **the reference observation of a chain** (no traceback machinery, no `_frame`, no `_task` / `_traceback` attributes) -/
+def refTop (bottom : Bottom) (levels : List Level) : List Event :=
+  refEvents bottom 0 levels ++ [refResult (ref bottom 0 levels)] ++ refOrphans 0 levels
+
+/-- level `lv` lets the exception of a SYNCHRONOUSLY called child pass: `_continue_on_generator` finds `_frame` still
+    None and stores the deepest frame of the glued traceback - the raiser's, not one of level `lv` -/
+def unsafeHere (bottom : Bottom) (lv : Nat) (L : Level) (rest : List Level) : Bool :=
+  L.await == .sync && L.handler.passes && (ref bottom (lv + 1) rest).isSome
+
+/-- no task asks for its stack after a creator - or a creator's creator ... - was left with such a foreign `_frame`:
+    from the outermost level with `unsafeHere` downwards nobody creates an orphan (decidable; depends on the chain's
+    reference behaviour, not only on its syntax: a synchronous call that does not fail is harmless) -/
+def stackSafe (bottom : Bottom) : Nat → List Level → Bool
+  | _, [] => true
+  | lv, L :: rest =>
+    if unsafeHere bottom lv L rest then (L :: rest).all (fun M => !M.orphan)
+    else stackSafe bottom (lv + 1) rest
 
 def firstWrong (levels : List Level) (expected got : List Nat) (i : Nat := 0) : String :=
   match expected, got with
@@ -397,6 +440,7 @@ def firstWrong (levels : List Level) (expected got : List Nat) (i : Nat := 0) : 
   | [], [] => "ok"
   | _, _ => "stack-length"
 
+/-- diagnosis of ONE event of the implementation that sits in the right slot (same kind and level as the reference) -/
 def glueEventClause (bottom : Bottom) (levels : List Level) : Event → String
   | .stack .orphan lv ls =>
     let exp := List.range (lv + 1) ++ [1000 + lv]
@@ -418,14 +462,33 @@ def Event.isResult : Event → Bool
   | .result _ => true
   | _ => false
 
-def glueClause (bottom : Bottom) (levels : List Level) (events : List Event) : String :=
-  let bad := (events.map (glueEventClause bottom levels)).filter (· != "ok")
-  let nres := (events.filter Event.isResult).length
-  match bad with
-  | c :: _ => c
-  | [] => if nres == 1 then "ok" else "no-result"
+def sameSlot : Event → Event → Bool
+  | .stack k lv _, .stack k' lv' _ => k == k' && lv == lv'
+  | .result _, .result _ => true
+  | _, _ => false
 
-/-- `Spec.C18` (glue part) -/
+/-- why an event list is not the reference one (first offence walking both lists); the names of the clauses are the
+    stable part of a finding's signature -/
+def glueWhy (bottom : Bottom) (levels : List Level) : List Event → List Event → String
+  | [], [] => "ok"
+  | [], _ :: _ => "unexpected-event"
+  | e :: _, [] => if e.isResult then "no-result" else "stack-event-missing"
+  | e :: es, g :: gs =>
+    if sameSlot e g then
+      let c := glueEventClause bottom levels g
+      if c == "ok" then glueWhy bottom levels es gs else c
+    else if e.isResult then "unexpected-event"         -- a stack event nobody should have produced, before the result
+    else if g.isResult then "stack-event-missing"      -- the result arrived although a body still had to report
+    else "stack-event-wrong-slot"                       -- a stack event of another level / kind than the one due
+
+/-- `Spec.C18` (glue part): the implementation's events ARE the reference events - every due `format_asynq_stack()`
+    answer is there, in order, with the right levels, nothing else is there, and the one result is the reference one -/
+def glueClause (bottom : Bottom) (levels : List Level) (events : List Event) : String :=
+  if events == refTop bottom levels then "ok"
+  else
+    let w := glueWhy bottom levels (refTop bottom levels) events
+    if w == "ok" then "not-the-reference-events" else w
+
 def glueSpec (bottom : Bottom) (levels : List Level) (events : List Event) : Bool :=
   glueClause bottom levels events == "ok"
 
@@ -477,12 +540,33 @@ structure FeIn where
   tbArg : Bool                -- a traceback object passed as `tb`
   deriving Repr, DecidableEq, Inhabited
 
+/-- the only thing about a held value that matters to `"...%s..." % value`: is it a tuple, and of what length
+    (anything else - dict, string containing `%`, None, list, number - is formatted as one argument) -/
+inductive PayShape where
+  | tuple (n : Nat)
+  | other
+  deriving Repr, DecidableEq, Inhabited
+
+/-- objects whose text is one format string over a held value -/
+inductive Holder where
+  | scopedValue       -- AsyncScopedValue
+  | scopedOverride    -- _AsyncScopedValueOverrideContext
+  | propOverride      -- _AsyncPropertyOverrideContext
+  | genValue          -- asynq.generator.Value
+  deriving Repr, DecidableEq, Inhabited
+
+inductive Fmt where
+  | wrapped   -- the right operand of `%` is a tuple built by the code, or the value already converted by str()/repr()
+  | bare      -- the held value itself is the right operand of `%`
+  deriving Repr, DecidableEq, Inhabited
+
 inductive Obj where
   | fut (s : FutSt)           -- Future, ConstFuture, ErrorFuture, batch items (no `__str__`: `str` = `repr`)
   | task (t : TaskSt)
   | batch (b : BatchSt)
   | sched (s : SchedSt)
-  | plain                     -- AsyncScopedValue, its override contexts, generator.Value: one format string over fields
+  | plain                     -- a text without any field (END_OF_GENERATOR, an idle DUMP_* run)
+  | holder (k : Holder) (p : PayShape)
   | asyncGen (init reads : List Nat)   -- attributes set by `_AsyncGenerator.__init__` / read by its `__repr__`
   | fmtErr (i : FeIn)
   /-- a ConstFuture / ErrorFuture describing itself from inside its own constructor (`set_value` → `_computed` →
@@ -496,6 +580,10 @@ inductive Op where
 
 inductive Exc where
   | attributeError
+  | typeError
+  /-- not an exception: the call returned a text that describes ANOTHER value than the one held (the harness reports
+      it as `Misdescribed`); the check counts it with the failures of the diagnostic -/
+  | misdescribed
   | other
   deriving Repr, DecidableEq, Inhabited
 
@@ -571,7 +659,27 @@ def formatError (i : FeIn) : FeShown :=
   else if i.isExc then .onlyException      -- `traceback.format_exception_only`
   else .empty
 
+/-- does `format_error` raise?  debug.py:120-122: `traceback.format_exception(error.__class__, error, tb)` reads
+    `error.__traceback__` / `__cause__` / `__suppress_context__`: AttributeError for anything that is no exception.
+    (Not an exception and no traceback anywhere: debug.py:125-126 `tb_list = []`, no failure.) -/
+def feRaises (i : FeIn) : Bool := !i.isNone && !i.isExc && (i.tbAttr.isSome || i.tbArg)
+
 def subset (a b : List Nat) : Bool := a.all fun x => b.contains x
+
+/-- how each holder builds its text -/
+def fmtOf : Holder → Fmt
+  | .scopedValue => .wrapped      -- scoped_value.py:52-56  `"AsyncScopedValue(%s)" % str(self._value)` / `% repr(self._value)`
+  | .scopedOverride => .wrapped   -- scoped_value.py:72-76  `"...(target=%r, value=%r)" % (self._target, self._value)`
+  | .propOverride => .wrapped     -- scoped_value.py:93-97  `% (self._target, self._property_name, self._value)`
+  | .genValue => .wrapped         -- generator.py:86-87     `"<Value: %r>" % (self.value,)`
+
+/-- CPython: `fmt % x` where `fmt` has exactly one conversion -/
+def pct : Fmt → PayShape → Res
+  | .wrapped, _ => .ok .text
+  | .bare, .other => .ok .text
+  | .bare, .tuple 0 => .raised .typeError        -- "not enough arguments for format string"
+  | .bare, .tuple 1 => .raised .misdescribed     -- formats the ELEMENT: `<Value: 1>` for `Value((1,))`
+  | .bare, .tuple (_ + 2) => .raised .typeError  -- "not all arguments converted during string formatting"
 
 /-- `str(x)`, `repr(x)`, `x.dump()` -/
 def render : Obj → Op → Res
@@ -586,18 +694,27 @@ def render : Obj → Op → Res
   | .sched s, .dump => .ok (.dump (if s.tasks > 0 then .tasks else .noTasks))   -- scheduler.py:266-277
   | .sched s, _ => .ok (.sched s.tasks s.batches s.active)                      -- scheduler.py:254-264
   | .plain, _ => .ok .text
+  | .holder k p, _ => pct (fmtOf k) p
   | .asyncGen init reads, _ =>
     -- generator.py:173-177: `"<@async_generator() %s %s>" % (self.generator, "stopped" if self.stopped else "")`
     if subset reads init then .ok .text else .raised .attributeError
-  | .fmtErr i, _ => .ok (.fe (formatError i))
+  | .fmtErr i, _ => if feRaises i then .raised .attributeError else .ok (.fe (formatError i))
   | .constInit inReprSet, _ =>
     -- futures.py:162-163 `if self._in_repr:` while futures.py:208-215 / 227-234 assign `_in_repr` after `set_value(..)`
     if inReprSet then .ok .text else .raised .attributeError
 
-/-- `Spec.C18` (totality part): the diagnostic produced something -/
-def reprClause (kind op : String) (r : Res) : String :=
-  match r with
-  | .ok _ => "ok"
-  | .raised _ => s!"raises:{kind}.{op}"
+/-- is the cell inside the statement?  "format_error accepts any EXCEPTION with or without traceback": what it does
+    with something that is neither None nor an exception is not judged (it is still modelled and compared) -/
+def inStatement : Obj → Bool
+  | .fmtErr i => i.isNone || i.isExc
+  | _ => true
+
+/-- `Spec.C18` (totality part): the diagnostic of an object inside the statement produced a text (and, where the
+    harness can tell, a text about the value the object holds) -/
+def reprClause (kind op : String) (o : Obj) (r : Res) : String :=
+  if !inStatement o then "ok"
+  else match r with
+    | .ok _ => "ok"
+    | .raised _ => s!"raises:{kind}.{op}"
 
 end AsynqModel.Debug
